@@ -74,3 +74,14 @@ package gcrypto
 //@   option implements CommonMessageSignatureProof.SignatureBitSet
 //@   requires SInv(p) && SCoupling(self, p)
 //@   represents pbits(self) == bsbits(p.bitset)
+
+// ---- Registry: decoding arbitrary bytes never panics (C14, C09) ----
+
+//@ func Registry.Unmarshal
+//@   property C14 C09
+//@   ensures short-input-is-an-error: len(b) < 8 ==> result0 == nil && result1 != nil
+//@   modifies heap
+
+//@ func Registry.Decode
+//@   property C14 C09
+//@   modifies heap
